@@ -170,7 +170,17 @@ class _Gen(object):
         r = self.r
         name = self.var()
         n = r.choice((2, 3, 3, 4, 5, 6))
-        shape = r.choice(('ifchain', 'ifchain', 'try', 'nested'))
+        shape = r.choice(('ifchain', 'ifchain', 'try', 'nested', 'instances', 'instances'))
+        if shape == 'instances':
+            # alternatives are instances (or the classes themselves) of classes that share attribute names
+            cls = ['KA', 'KB', 'KC'][:r.choice((2, 3))]
+            defs = [['class', c, [], [['assign', 'attr', "'%s'" % c], ['def', 'meth', ['self'], [['return', "'%s'" % c]]]]]
+                    for c in cls]
+            call = '()' if r.random() < 0.7 else ''
+            branches = [[['assign', name, c + call]] for c in cls]
+            st = ['if', self.expr(1), branches[0], [[self.expr(1), b] for b in branches[1:-1]], branches[-1]]
+            self.budget -= n
+            return ['seq', defs + [st, ['expr', 'print(%s.attr, %s.meth)' % (name, name)], ['assign', self.var(), name + '.attr']]]
         if shape == 'ifchain':
             branches = [[self.binding(name, depth, in_loop, in_func, j)] for j in range(n)]
             has_else = r.random() < 0.6
@@ -308,6 +318,18 @@ def compiles(text):
         return True
     except SyntaxError:
         return False
+
+
+def attr_reads(text):
+    """Attribute reads on plain names (x.attr in Load context) as (line, col of the end of attr, name, attr)."""
+    tree = ast.parse(text)
+    out = []
+    for node in ast.walk(tree):
+        if isinstance(node, ast.Attribute) and isinstance(node.ctx, ast.Load) and isinstance(node.value, ast.Name) \
+                and node.end_lineno == node.lineno:
+            out.append((node.lineno, node.end_col_offset, node.value.id, node.attr))
+    out.sort()
+    return out
 
 
 def reads(text):
